@@ -156,8 +156,10 @@ func cmdC07(r *RNG, n int, e *Emitter, args []string) {
 					desc["known_key"] = "precision-zero-means-two"
 				}
 				desc["got"], desc["want"] = fmt.Sprint(got), fmt.Sprint(want)
-				if len(desc["got"].(string)) > 1500 {
-					desc["got"], desc["want"] = desc["got"].(string)[:1500], desc["want"].(string)[:1500]
+				for _, k := range []string{"got", "want"} {
+					if v := desc[k].(string); len(v) > 1500 {
+						desc[k] = v[:1500]
+					}
 				}
 				e.Fail(desc)
 			}
